@@ -990,6 +990,9 @@ func (obj *Package) GetFunc(name string) (fi *FuncInfo) {
 
 // DefLambda registers a named lambda function. This is called by defun.
 func (obj *Package) DefLambda(name string, lam *Lambda, fc func(args List) Object, kind Symbol) (fi *FuncInfo) {
+	if obj.Locked && obj.GetFunc(name) == nil {
+		PackagePanic(NewScope(), 0, obj, "Package %s is locked thus no new functions can be defined.", obj.Name)
+	}
 	obj.mu.Lock()
 	if xlam := obj.lambdas[name]; xlam != nil {
 		xlam.Doc = lam.Doc
